@@ -24,6 +24,9 @@ CLAIMS = {
             'Slot tables of EvolutionProxy, the sin/cos table of PrepareEvolve and the FastEvolutionProxy table fed with it are extracted '
             'for d=2..6 and compared with exp(iHt) A exp(-iHt) over the extracted basis; pair indices form a bijection with level pairs.',
             'static analysis: abstract interpretation into trigonometric-polynomial tables; comparison with the conjugation formula'),
+    'C11': ('proof',
+            'The four filter families are abstractly interpreted for d=2..6 with data-dependent branches kept as guards; the guarded table of every level pair is compared with the documented piecewise definition (threshold, strictness, ramp, cutoff), the phase/frequency of pair k with that of the consumer kernel, the interval form with the exact average; every division by an input-dependent quantity must be dominated by guards excluding zero (35 listed known findings).',
+            'static analysis: abstract interpretation with guarded (ITE) values; guarded-table comparison; guard-dominance rule for divisions'),
     'C13': ('proof',
             'Each factory body is abstractly interpreted for every d in 2..6 and every admissible index (finite domain, exhaustive) and '
             'the resulting vector, mapped through the extracted basis, is compared with the documented 0/1 diagonal matrix.',
